@@ -311,6 +311,7 @@ type world struct {
 	store *verifmc.Store
 	lock  *verifmc.Store
 	clock int64
+	poolSize int
 	// steadyClock suppresses clock anomalies (initial, out-of-scenario loads).
 	steadyClock bool
 	// frozen: the clock has stalled (a persistent anomaly).
@@ -445,7 +446,7 @@ func (w *world) newInstance(name string, epoch int, rows []cacheRow, quiet bool)
 	}
 	in.ctx, in.cancel = context.WithCancel(context.Background())
 	in.cfg = &Config{
-		Name: logName, Key: mcKey, WitnessKey: mcWitKey, PoolSize: 0, Cache: in.cache,
+		Name: logName, Key: mcKey, WitnessKey: mcWitKey, PoolSize: w.poolSize, Cache: in.cache,
 		Backend: in.be, Lock: &mcLock{h: in.lh}, Log: slog.New(slog.DiscardHandler),
 		NotAfterStart: time.Date(1990, 1, 1, 0, 0, 0, 0, time.UTC),
 		NotAfterLimit: time.Date(2099, 1, 1, 0, 0, 0, 0, time.UTC),
